@@ -542,7 +542,22 @@ func (s *c20Sim) asyncError() {
 	s.w.mu.Lock()
 	h := s.w.hosts[k]
 	s.w.mu.Unlock()
+	// what the component has reported before (every status below leads to FatalError in the documented diagram)
+	history := s.r.Tape.Weighted(3, 1, 1, 1)
+	if history > 0 {
+		s.r.Count("fault.async_fatal_error_after_recoverable_error_history")
+	}
 	s.helper = append(s.helper, simkit.Go("async-error", func(*simkit.Task) {
+		switch history {
+		case 1:
+			componentstatus.ReportStatus(h, componentstatus.NewRecoverableErrorEvent(errors.New("sim: recoverable")))
+		case 2:
+			componentstatus.ReportStatus(h, componentstatus.NewRecoverableErrorEvent(errors.New("sim: recoverable")))
+			componentstatus.ReportStatus(h, componentstatus.NewEvent(componentstatus.StatusOK))
+		case 3:
+			componentstatus.ReportStatus(h, componentstatus.NewRecoverableErrorEvent(errors.New("sim: recoverable")))
+			componentstatus.ReportStatus(h, componentstatus.NewRecoverableErrorEvent(errors.New("sim: recoverable again")))
+		}
 		componentstatus.ReportStatus(h, componentstatus.NewFatalErrorEvent(errors.New("sim: fatal")))
 	}))
 }
@@ -781,5 +796,5 @@ var HarnessC20 = simkit.Harness{
 	Prop: "C20", Name: "svc/c20", Run: runC20, StepTimeout: 20e9, HashInsensitive: true,
 	Real: append([]string{"otelcol.Collector (NewCollector, Run loop, reloadConfiguration, setupConfigurationComponents, Shutdown)", "otelcol.ConfigProvider + confmap.Resolver (watcher channel, closers)", "otelcol config unmarshalling and validation", "graph.Host fatal-error path to the async error channel"}, svcReal...),
 	Stub: append([]string{"confmap.Provider 'sim' serving generated configurations and owning the watcher", "OS signals (delivered through the tag-guarded VerifSendSignal hook)"}, svcStub...),
-	Rule: "one run = one collector Run as a task in the bubble with a generated initial configuration (occasionally invalid / unretrievable / failing to start) and a tape-drawn history of 3-18 external events: config change (valid, invalid, failing to start), config-watch error, SIGHUP, SIGTERM, SIGINT, Shutdown() calls from tasks, context cancellation, asynchronous fatal error from a started component, and releases of component Start/Shutdown calls that park; in 1 run in 5 one or two components fail in Shutdown (their errors wrap nothing, a deadline or cancellation error of their own, or a permanent error) (so that events accumulate while a reload is in progress); followed by a quiet phase in which everything parked is released; distinct = distinct event-log hash; non-trivial = an external event arrived while a component's Start/Shutdown was parked",
+	Rule: "one run = one collector Run as a task in the bubble with a generated initial configuration (occasionally invalid / unretrievable / failing to start) and a tape-drawn history of 3-18 external events: config change (valid, invalid, failing to start), config-watch error, SIGHUP, SIGTERM, SIGINT, Shutdown() calls from tasks, context cancellation, asynchronous fatal error from a started component (which may have reported recoverable errors before), and releases of component Start/Shutdown calls that park; in 1 run in 5 one or two components fail in Shutdown (their errors wrap nothing, a deadline or cancellation error of their own, or a permanent error) (so that events accumulate while a reload is in progress); followed by a quiet phase in which everything parked is released; distinct = distinct event-log hash; non-trivial = an external event arrived while a component's Start/Shutdown was parked",
 }
